@@ -53,7 +53,10 @@ RULE = (
     "Float at 15 and 30 digits, exact real constants) enumerated first, then random gates with parameters in "
     "random spellings over magnitudes 1e-30 .. 2**501 (integers beyond 2**53 / 2**63 / 2**64 with at most 53 "
     "significant bits), the additive law with a, b and the exact sum a+b in three independent spellings (b a "
-    "neighbour of a at the resolution of a float, -a, or unrelated), zero in 12 spellings; "
+    "neighbour of a at the resolution of a float, -a, or unrelated), zero in 12 spellings; impostor = user-defined "
+    "gates that share a built-in gate's name and parameter count with an unrelated (non-unitary) matrix are "
+    "evaluated first, the built-in gate of that name at the same parameters afterwards: once per process for every "
+    "table entry before any built-in gate was evaluated, then per case for four parametric gates at fresh values; "
     "non-trivial = parametric gate at a "
     "non-special parameter, a symbolic obligation or a history; distinct = distinct canonical case strings"
 )
@@ -80,7 +83,7 @@ GRID = [0, math.pi / 4, -math.pi / 4, math.pi / 2, -math.pi / 2, math.pi, -math.
 
 
 def classes(tier):
-    return ["sym", "fixed", "grid", "num_random", "num_group", "group_int", "history", "spelling"]
+    return ["sym", "fixed", "grid", "num_random", "num_group", "group_int", "history", "spelling", "impostor"]
 
 
 # ------------------------------------------------------------------ CAS pipeline
@@ -631,10 +634,77 @@ def _spelling_case(ctx):
         ctx.check("spell-zero-angle", dz <= 1e-12, f"{name}({RS.show(z)}) differs from the identity by {dz}")
 
 
+_IMPOSTORS_DONE = False
+
+
+def _impostor_gate(name, e, params):
+    """a user-defined gate that merely SHARES the name (and parameter count) of a built-in gate: legal ("defining
+    different gates with the same name as built-in ones is discouraged", not refused), with a matrix of the right size
+    that is nothing like the built-in's - upper triangular, not unitary, not hermitian"""
+    from orquestra.quantum.circuits import CustomGateDefinition
+
+    d = 2 ** e["nq"]
+    syms = sympy.symbols(f"u0:{len(params)}") if params else ()
+    M = sympy.eye(d) * 2
+    for i in range(d - 1):
+        M[i, i + 1] = 3
+    if syms:
+        M[0, d - 1] = 5 + sum(syms)
+    return CustomGateDefinition(gate_name=name, matrix=M, params_ordering=tuple(syms))(*params)
+
+
+def _impostors(ctx, names, fresh_params):
+    """evaluate an impostor of each named built-in gate FIRST, then the built-in gate itself at the same parameters
+    (judged by the hook like any other evaluation), then the impostor again"""
+    tab = GC.builtin_table()
+    plan = []
+    for name in names:
+        e = tab[name]
+        params = tuple(fresh_params(name, e)) if e["kind"] == "param" else ()
+        imp = _impostor_gate(name, e, params)
+        try:
+            imp.matrix
+        except Exception:
+            ctx.mon.note("impostor:matrix-raised")  # a custom gate's own matrix is C07's business
+        plan.append((name, e, params, imp))
+    for name, e, params, imp in plan:
+        g = e["ref"](*params) if e["kind"] == "param" else e["ref"]
+        try:
+            g.matrix
+        except Exception:
+            pass  # judged by the hook
+        ctx.mon.note("impostor:built-in-evaluated-after-a-namesake")
+    for name, e, params, imp in plan[:3]:
+        try:
+            imp.matrix
+        except Exception:
+            pass
+
+
 def run_case(ctx):
+    global _IMPOSTORS_DONE
     tab = GC.builtin_table()
     rng, nprng = ctx.rng, ctx.nprng
     cls = ctx.cls
+    if not _IMPOSTORS_DONE:
+        # once per process, before any built-in gate of this process has been asked for its matrix: a namesake of
+        # EVERY built-in gate is evaluated first (anything kept per gate name is then filled by the namesake)
+        _IMPOSTORS_DONE = True
+        _impostors(ctx, sorted(tab), lambda name, e: [round(0.137 * (i + 1) + 0.001 * len(name), 6) for i in range(e["nparams"])])
+        ctx.mon.note("impostor:prelude-run")
+    if cls == "impostor":
+        # namesakes of the parametric gates at FRESH parameter values (what a per-(name, parameters) table would
+        # key on), the built-in gate asked afterwards, several gates per case
+        pn = sorted(n for n, e in tab.items() if e["kind"] == "param")
+        names = rng.sample(pn, min(4, len(pn)))
+        vals = {}
+
+        def fresh(name, e):
+            vals[name] = [rng.choice([round(rng.uniform(-6, 6), 5), rng.randint(-5, 5), rng.choice(GRID)]) for _ in range(e["nparams"])]
+            return vals[name]
+        ctx.describe(f"impostor namesakes of {names} first, then the built-in gates at the same parameters", True)
+        _impostors(ctx, names, fresh)
+        return
     if cls == "sym":
         obs = _obligations()
         if ctx.index >= len(obs):
